@@ -163,9 +163,9 @@ t["layers"] = all_matrix_layers(600, 1200)
 q["require_complete"] = t["require_complete"] = [("matrix_cases", "matrix_total")]
 q["require_probes"] = t["require_probes"] = ["legit_continuations_ok", "share_ownership_checks", "peer_contribution_replies_checked", "ownership_generations"]
 plan("C16", "exploration",
-     "the table caller identity {a peer, an ordinary client with all permissions, empty name, unknown name, a peer's name in upper case, a peer's name with a suffix} x message "
+     "the table caller identity {a peer, a configured peer that is not a participant of the generation, an ordinary client with all permissions, empty name, unknown name, a peer's name in upper case, a peer's name with a suffix} x message "
      "{prepare, execute, contribute (with a contribution that would verify), commit, abort} x session state at the receiving instance {none, prepared, executed, committed, aborted, "
-     "expired (fake clock)} is enumerated completely (180 cases) through the real receiver handlers of a 3-instance cluster; the remaining runs are seeded fault-free generations with "
+     "expired (fake clock)} is enumerated completely (210 cases) through the real receiver handlers of a 4-instance cluster (3 participants); the remaining runs are seeded fault-free generations with "
      "drawn (n,t) and id sets. distinct = distinct table case or (n,t,id-class); non-trivial = all. Oracle: a non-peer gets an error and no share, and the legitimate protocol run "
      "continues from that state to a committed account on every participant; every contribution the transport carries (request and reply) has share = originator's vector evaluated "
      "at the recipient's id and at no other participant's id.",
